@@ -377,7 +377,9 @@ def load_known():
                 continue
             m = re.match(r'known: property=(\S+) obligation=(\S+) (.*)', line)
             if m:
-                out.append({'property': m.group(1), 'obligation': m.group(2), 'what': m.group(3)})
+                what = m.group(3)
+                d = re.match(r'desc=(\S+) (.*)', what)      # optional: the failing obligation's description must match too
+                out.append({'property': m.group(1), 'obligation': m.group(2), 'what': d.group(2) if d else what, 'desc': d.group(1) if d else None})
     return out
 
 
@@ -575,9 +577,11 @@ def run_check(pid, module, tier, seed):
         if r.status == 'FAILURE':
             for fp in r.failed:
                 oname = '%s/%s' % (r.job.name, fp['property'])
-                kn = [k for k in known if re.fullmatch(k['obligation'], oname) or k['obligation'] == oname]
+                kn = [k for k in known if (re.fullmatch(k['obligation'], oname) or k['obligation'] == oname)
+                      and (not k.get('desc') or re.search(k['desc'], fp.get('description', '')))]
                 if kn:
                     known_hits.append((oname, kn[0]['what']))
+                    fp['known_finding'] = True
                     continue
                 violations.append((r, fp, oname))
         elif r.status != 'SUCCESS':
@@ -620,7 +624,7 @@ def run_check(pid, module, tier, seed):
     if exit_code == 2:
         for r in undecided:
             print('UNDECIDED %s/%s: %s %s' % (pid, r.job.name, r.status, r.detail[:600].replace('\n', ' ')))
-    print('[vcheck] %s: %s in %.0fs' % (pid, {0: 'all obligations discharged', 1: 'VIOLATION', 2: 'UNDECIDED (no verdict)'}[exit_code], time.time() - t0))
+    print('[vcheck] %s: %s in %.0fs' % (pid, {0: 'all obligations discharged' if not known_hits else 'no new violation (%d obligation(s) fail as listed known findings)' % len(known_hits), 1: 'VIOLATION', 2: 'UNDECIDED (no verdict)'}[exit_code], time.time() - t0))
     if os.environ.get('VERIF_KEEP'):
         print('[vcheck] work dir kept: ' + workroot)
     else:
@@ -631,7 +635,8 @@ def run_check(pid, module, tier, seed):
 def write_evidence(pid, module, tier, seed, results, wall, nviol, known_hits):
     proved = [r for r in results if r.job.bounded is None]
     bounded = [r for r in results if r.job.bounded is not None]
-    n_ob = sum(len(r.props) for r in proved)
+    nk = len(known_hits)
+    n_ob = sum(len(r.props) for r in proved) - nk     # obligations failing as a listed known finding are reported under known_findings_seen
     n_ok = sum(sum(1 for p in r.props if p['status'] == 'SUCCESS') for r in proved)
     samples = []
     for r in results[:]:
